@@ -36,7 +36,7 @@ def insertSec (c : Cache κ ν) (k : κ) (v : ν) (expiry : Int) (sz : Nat) : Ca
 
 /-- `go func(){ clock.Sleep(ttl); clearKey }()` up to its `Sleep` (returns at once when `ttl ≤ 0`). -/
 def spawnSec (c : Cache κ ν) (k : κ) (ttl : Int) : Cache κ ν :=
-  if ttl > 0 then { c with pending := insertSleeper { due := c.now + ttl, key := k } c.pending }
+  if ttl > 0 then { c with pending := insertSleeper { due := c.mono + ttl, key := k } c.pending }
   else clearKey c k
 
 inductive Call (κ ν : Type) where
@@ -139,6 +139,7 @@ inductive Sched (κ ν : Type) where
   | fire (i : Nat)         -- the i-th pending sleeper (if due) executes its clearKey section
   | skip (d : Nat)         -- time passes
   | adv (d : Nat)          -- time passes and all sleepers that become due run
+  | wstep (d : Int)        -- the wall clock is stepped (no time elapses)
   | probe
 deriving Repr
 
@@ -148,6 +149,7 @@ def istep (s : IState κ ν) : Sched κ ν → IState κ ν
   | .fire i => { s with c := (fire s.c i).1 }
   | .skip d => { s with c := skip s.c d }
   | .adv d => { s with c := (adv s.c d).1 }
+  | .wstep d => { s with c := wstep s.c d }
   | .probe => { s with hist := .probe s.c.tracked (heldSize s.c.entries) :: s.hist }
 
 def iexec (s : IState κ ν) : List (Sched κ ν) → IState κ ν
